@@ -281,6 +281,12 @@ func (d *dumper) fields(rv reflect.Value) []any {
 			fs = append(fs, []any{f.Name, nil})
 			continue
 		}
+		if strings.HasPrefix(f.Type.String(), "node.vmCache[") {
+			// per-VM resolution cache (node/vm_cache.go): filled when a VM first resolves the class / callee,
+			// keyed by that VM; never read across VMs, so it is not part of the program
+			fs = append(fs, []any{f.Name, nil})
+			continue
+		}
 		if t == reflect.TypeOf(node.CallExpression{}) && f.Name == "Fun" {
 			fs = append(fs, []any{f.Name, nil}) // resolved callee: runtime-only
 			continue
@@ -489,7 +495,9 @@ func sampleSubs(stmts reflect.Value, file, ns string, limit int) []Sub {
 					_, err := compile.VerifEmit(rv.Interface().(data.GetValue), file, ns)
 					ok = err == nil
 				}()
-				subs = append(subs, Sub{V: dump(rv.Interface()), Ok: ok})
+				if dv, over := dump(rv.Interface()); !over {
+					subs = append(subs, Sub{V: dv, Ok: ok})
+				}
 			}
 			e := rv.Elem()
 			for i := 0; i < e.NumField(); i++ {
@@ -521,16 +529,20 @@ func loadAll(vm data.VM) {
 	system.Load(vm)
 }
 
-func progStatements(p data.GetValue) (any, bool) {
+func progStatements(p data.GetValue) (any, string) {
 	rv := reflect.ValueOf(p)
 	if rv.Kind() != reflect.Ptr || rv.IsNil() {
-		return nil, false
+		return nil, "program without Statements"
 	}
 	f := rv.Elem().FieldByName("Statements")
 	if !f.IsValid() {
-		return nil, false
+		return nil, "program without Statements"
 	}
-	return dump(f.Interface()), true
+	d, over := dump(f.Interface())
+	if over {
+		return nil, "tree larger than the dump budget (400000 nodes): not compared"
+	}
+	return d, ""
 }
 
 func structMode(files []string) []StructRes {
@@ -561,11 +573,11 @@ func structMode(files []string) []StructRes {
 				return
 			}
 			prog, _ := c()
-			var ok1, ok2 bool
-			r.Parsed, ok1 = progStatements(pf.Program)
-			r.Built, ok2 = progStatements(prog)
-			if !ok1 || !ok2 {
-				r.Err = "program without Statements"
+			var e1, e2 string
+			r.Parsed, e1 = progStatements(pf.Program)
+			r.Built, e2 = progStatements(prog)
+			if e1 != "" || e2 != "" {
+				r.Err = "parsed: " + e1 + "; built: " + e2
 			}
 			if st := reflect.ValueOf(pf.Program).Elem().FieldByName("Statements"); st.IsValid() {
 				r.Subs = sampleSubs(st, f, pf.Namespace, 60)
@@ -586,6 +598,7 @@ type Run struct {
 	ExitFail bool   `json:"exit_fail"` // the process exit decision: non-zero status
 	ExitCode int    `json:"exit_code"`
 	Multi    bool   `json:"multi,omitempty"`
+	Stderr   string `json:"stderr,omitempty"`
 }
 type E2E struct {
 	File        string `json:"file"`
@@ -658,12 +671,18 @@ func childRun(side, file string) {
 	switch {
 	case ctl != nil:
 		r.ExitFail, r.ExitCode = true, 1
-		if _, ok := ctl.(*data.ThrowValue); ok {
+		r.Detail = ctl.AsString()
+		if tv, ok := ctl.(*data.ThrowValue); ok {
 			r.Outcome = "throw"
+			// the class of the uncaught error is part of the observable outcome
+			cls := tv.GetName()
+			if tv.Object != nil && tv.Object.Class != nil {
+				cls = tv.Object.Class.GetName()
+			}
+			r.Detail = "[" + cls + "] " + r.Detail
 		} else {
 			r.Outcome = "control"
 		}
-		r.Detail = ctl.AsString()
 	case thrown:
 		r.Outcome, r.ExitFail, r.ExitCode, r.Detail = "throw", true, 1, thrownDetail
 	default:
@@ -674,7 +693,8 @@ func childRun(side, file string) {
 
 func spawn(side, file string) Run {
 	cmd := exec.Command(os.Args[0], "child", side, file)
-	cmd.Stderr = nil
+	var errb strings.Builder
+	cmd.Stderr = &errb
 	done := make(chan struct{})
 	var out []byte
 	var err error
@@ -693,6 +713,7 @@ func spawn(side, file string) Run {
 		var r Run
 		if json.Unmarshal([]byte(strings.TrimSpace(text[i+1+len(marker):])), &r) == nil {
 			r.Out = text[:i]
+			r.Stderr = errb.String()
 			return r
 		}
 	}
@@ -701,7 +722,7 @@ func spawn(side, file string) Run {
 	if ee, ok := err.(*exec.ExitError); ok {
 		code = ee.ExitCode()
 	}
-	return Run{Out: text, Outcome: "exit", ExitFail: code != 0, ExitCode: code}
+	return Run{Out: text, Outcome: "exit", ExitFail: code != 0, ExitCode: code, Stderr: errb.String()}
 }
 
 // ---- string literals: emitter output read back the way the Go compiler reads it
